@@ -42,6 +42,7 @@ Proof.
   destruct (supported nxt).
   - destruct (sub b 4 (N.to_nat pl)) as [body| | |] eqn:Sb; cbn [bind]; try discriminate.
     destruct (payload_unmarshal nxt b0 body) as [p| | |] eqn:Pu; cbn [bind]; try discriminate.
+    destruct ((nxt =? 46) && (N.to_nat pl <? length b)%nat); [discriminate|].
     destruct (from b (N.to_nat pl)) as [rest| | |] eqn:Fr; cbn [bind]; try discriminate.
     destruct (container_decode f b0 rest) as [ps'| | |] eqn:Cd; cbn [bind]; try discriminate.
     intros [= <-]. constructor.
